@@ -144,6 +144,8 @@ def cases(draw):
     # mostly small transactions (ids depend on structure, not size); one in eight from the boundary-length grammar
     tx = draw(gen_tx.tx_case("small")) if draw(st.integers(0, 7)) else draw(gen_tx.tx_case("big"))
     if draw(st.integers(0, 9)) == 0:
+        tx = draw(gen_tx.coinbase_case())  # null outpoint, arbitrary miner data in the script, reserved-value witness
+    if draw(st.integers(0, 9)) == 0:
         # coinbase-shaped: a single input spending the null outpoint (legacy or with the reserved-value witness)
         tx["ins"] = tx["ins"][:1]
         tx["ins"][0]["txid"] = "00" * 32
